@@ -316,8 +316,14 @@ where
             got_s.dedup();
             rep.transitions += 1;
             if want_s != got_s {
-                rep.outcome("epoll-set-differs");
-                rep.violation(&format!("C11:{cfgname}:epoll-registration:after-{}", format!("{op:?}").split('(').next().unwrap_or("")), &format!("worker {w}: registered ring events {got:?}, active rings' events {want:?}"), case(sys));
+                // Not a violation by itself: the statement is about dispatches. The registration set is
+                // part of the deduplication key, so a state with a deviating set is a state of its own and
+                // every operation (including kicks) is still tried from it; a deviation that matters shows
+                // up there as a missing or forbidden dispatch.
+                rep.outcome("epoll-set-differs-from-active-rings(info)");
+                let n = rep.extra.get("epoll_set_deviations").and_then(|v| v.as_u64()).unwrap_or(0);
+                rep.extra.insert("epoll_set_deviations".into(), serde_json::json!(n + 1));
+                let _ = (w, &got, &want);
             }
         }
     }
